@@ -46,11 +46,19 @@ impl<'a> StringLexer<'a> {
 
     /// (mostly just used by Iterator, but might be useful)
     pub fn next_lexeme(&mut self) -> Result<Option<u8>> {
+        // (a loop: a string may consist of thousands of ignored escapes, one stack frame each is too much)
+        loop {
+            if let Some(lexeme) = self.next_lexeme_or_skip()? {
+                return Ok(lexeme);
+            }
+        }
+    }
+    /// `None`: something that produces no byte (a line continuation, an ignored backslash) was skipped
+    fn next_lexeme_or_skip(&mut self) -> Result<Option<Option<u8>>> {
         let c = self.next_byte()?;
-        match c {
+        Ok(Some(match c {
             b'\\' => {
                 let c = self.next_byte()?;
-                Ok(
                 match c {
                     b'n' => Some(b'\n'),
                     b'r' => Some(b'\r'),
@@ -61,14 +69,14 @@ impl<'a> StringLexer<'a> {
                     b')' => Some(b')'),
                     b'\n' => {
                         // ignore end-of-line marker (LF CR is not one: the CR belongs to the string)
-                        self.next_lexeme()?
+                        return Ok(None);
                     }
                     b'\r' => {
                         // ignore end-of-line marker
                         if let Ok(b'\n') = self.peek_byte() {
                             let _ = self.next_byte();
                         }
-                        self.next_lexeme()?
+                        return Ok(None);
                     }
                     b'\\' => Some(b'\\'),
 
@@ -91,24 +99,23 @@ impl<'a> StringLexer<'a> {
                         }
                         if digits == 0 {
                             // not an escape sequence: the backslash is ignored
-                            return self.next_lexeme();
+                            return Ok(None);
                         }
                         Some(char_code as u8)
                     }
                 }
-                )
             },
 
             b'(' => {
                 self.nested += 1;
-                Ok(Some(b'('))
+                Some(b'(')
             },
             b')' => {
                 self.nested -= 1;
                 if self.nested < 0 {
-                    Ok(None)
+                    None
                 } else {
-                    Ok(Some(b')'))
+                    Some(b')')
                 }
             },
 
@@ -117,12 +124,12 @@ impl<'a> StringLexer<'a> {
                 if let Ok(b'\n') = self.peek_byte() {
                     let _ = self.next_byte();
                 }
-                Ok(Some(b'\n'))
+                Some(b'\n')
             },
 
-            c => Ok(Some(c))
+            c => Some(c)
 
-        }
+        }))
     }
 
     fn next_byte(&mut self) -> Result<u8> {
